@@ -50,13 +50,14 @@ type vInvC39 struct {
 }
 
 type vCaseC39 struct {
-	e     *vEnv
-	src   string
-	trees []vTree // trees of the snapshots in creation order (index-aligned with ids while nothing is forgotten)
-	sns   []*data.Snapshot
-	last  vTree
-	waste string // class of garbage in the repository that prune would act on ("none" if there is none)
-	nseq  int    // number of regular backups
+	e      *vEnv
+	src    string
+	trees  []vTree // trees of the snapshots in creation order (index-aligned with ids while nothing is forgotten)
+	sns    []*data.Snapshot
+	last   vTree
+	waste  string // class of garbage in the repository that prune would act on ("none" if there is none)
+	nseq   int    // number of regular backups
+	repoID string // config ID (argument of prune --unsafe-recover-no-free-space)
 }
 
 func vCloneEnvC39(e *vEnv) (*vEnv, error) {
@@ -163,7 +164,7 @@ func (c *vCaseC39) materialize(tr vTree) error {
 	return tr.Materialize(c.src)
 }
 
-func vPruneOptsC39(t *rapid.T, v2 bool, comp repository.CompressionMode) (PruneOptions, string) {
+func vPruneOptsC39(t *rapid.T, v2 bool, comp repository.CompressionMode, repoID string) (PruneOptions, string) {
 	o := PruneOptions{
 		MaxUnused:           rapid.SampledFrom([]string{"0", "0", "5%", "unlimited", "1k"}).Draw(t, "maxunused"),
 		MaxRepackSize:       rapid.SampledFrom([]string{"", "", "0", "2k", "1M"}).Draw(t, "maxrepack"),
@@ -171,7 +172,11 @@ func vPruneOptsC39(t *rapid.T, v2 bool, comp repository.CompressionMode) (PruneO
 		RepackUncompressed:  rapid.IntRange(0, 3).Draw(t, "uncompressed") == 0 && v2 && comp != repository.CompressionOff,
 		SmallPackSize:       rapid.SampledFrom([]string{"", "", "1M", "1k"}).Draw(t, "smaller"),
 	}
-	return o, fmt.Sprintf("max-unused=%s max-repack=%q cacheable=%v uncompressed=%v smaller=%q", o.MaxUnused, o.MaxRepackSize, o.RepackCacheableOnly, o.RepackUncompressed, o.SmallPackSize)
+	// the recovery mode for full repositories (deletes before it writes) is a prune mode like any other: --dry-run binds it too
+	if repoID != "" && rapid.IntRange(0, 4).Draw(t, "unsaferecovery") == 0 {
+		o.UnsafeNoSpaceRecovery = repoID
+	}
+	return o, fmt.Sprintf("max-unused=%s max-repack=%q cacheable=%v uncompressed=%v smaller=%q unsafe-recovery=%v", o.MaxUnused, o.MaxRepackSize, o.RepackCacheableOnly, o.RepackUncompressed, o.SmallPackSize, o.UnsafeNoSpaceRecovery != "")
 }
 
 func vCallC39(env *vEnv, g global.Options, fn func(ctx context.Context, gopts global.Options) error) (vOut, error) {
@@ -569,7 +574,7 @@ func (c *vCaseC39) dryInvocations(t *rapid.T, v2 bool) []vInvC39 {
 		if len(args) == 0 && rapid.Bool().Draw(t, "fgroup") {
 			fo.GroupBy = data.SnapshotGroupByOptions{Host: true, Path: true}
 		}
-		popts, pdesc := vPruneOptsC39(t, v2, comp)
+		popts, pdesc := vPruneOptsC39(t, v2, comp, c.repoID)
 		json := rapid.IntRange(0, 3).Draw(t, "fjson") == 0
 		kind := "forget"
 		if noLock {
@@ -592,7 +597,7 @@ func (c *vCaseC39) dryInvocations(t *rapid.T, v2 bool) []vInvC39 {
 
 	// prune --dry-run
 	{
-		popts, pdesc := vPruneOptsC39(t, v2, comp)
+		popts, pdesc := vPruneOptsC39(t, v2, comp, c.repoID)
 		noLock := rapid.Bool().Draw(t, "pnolock")
 		kind := "prune"
 		if noLock {
@@ -656,7 +661,7 @@ func (c *vCaseC39) dryInvocations(t *rapid.T, v2 bool) []vInvC39 {
 	// a repository with garbage always gets the LOCKING dry-run variants that plan a prune: these
 	// run on the real backend (no dry-run wrapper), so nothing but lock files may be touched
 	if c.waste != "none" {
-		popts, pdesc := vPruneOptsC39(t, v2, comp)
+		popts, pdesc := vPruneOptsC39(t, v2, comp, c.repoID)
 		invs = append(invs, vInvC39{kind: "prune", hasWet: true, locks: true, mustSucceed: true,
 			desc: fmt.Sprintf("--dry-run %s no-lock=false (waste %s)", pdesc, c.waste),
 			run: func(env *vEnv, dry bool) (vOut, error) {
@@ -669,7 +674,7 @@ func (c *vCaseC39) dryInvocations(t *rapid.T, v2 bool) []vInvC39 {
 					return runPrune(ctx, o, gopts, gopts.Term)
 				})
 			}})
-		fpopts, fpdesc := vPruneOptsC39(t, v2, comp)
+		fpopts, fpdesc := vPruneOptsC39(t, v2, comp, c.repoID)
 		victim := c.pickSnap(t, "wfsnap").ID().String()
 		invs = append(invs, vInvC39{kind: "forget", hasWet: true, locks: true, mustSucceed: true,
 			desc: fmt.Sprintf("--dry-run ids %s prune=true (%s) no-lock=false (waste %s)", victim, fpdesc, c.waste),
@@ -918,6 +923,12 @@ func TestVerifC39DryRunNoLock(t *testing.T) {
 			t.Fatal(err)
 		}
 		c := &vCaseC39{e: e, src: e.Scratch("src-")}
+		if err := e.WithRepo(func(ctx context.Context, repo *repository.Repository) error {
+			c.repoID = repo.Config().ID
+			return nil
+		}); err != nil {
+			t.Fatal(err)
+		}
 
 		// the repository: 2-4 backups over a content pool, optionally one snapshot forgotten
 		// (unused blobs for prune), optionally one snapshot tagged twice
